@@ -56,8 +56,9 @@ def run_case(case):
                                     init=[(x ^ 0x5a) & ((1 << dw) - 1) for x in case["init"]]))
     late_init = rng.random() < 0.2
     depth = case["size"] * gran // dw
-    dut = WishboneSRAM(size=case["size"], data_width=dw, granularity=gran,
-                       writable=case["writable"], init=() if late_init else init_arg)
+    from vmon.simkit import omit
+    dut = WishboneSRAM(**omit(rng, "WishboneSRAM", size=case["size"], data_width=dw, granularity=gran,
+                              writable=case["writable"], init=() if late_init else init_arg))
     from vmon.simkit import decoy_after
     other = decoy_after(rng, lambda: WishboneSRAM(size=case["size"] * 2, data_width=dw, granularity=gran,
                                                   writable=not case["writable"], init=[1, 2, 3][:depth]))
